@@ -4,3 +4,4 @@ pub mod runner;
 pub mod sk;
 pub mod detcomp;
 pub mod internops;
+pub mod lower_print;
